@@ -117,6 +117,9 @@ QCore2(u) ==
            Disj(<< T(1), IdsQ >>, 0), Disj(<< T(1), IdsQ >>, 2), Disj(<< NoneQ, T(1) >>, 1), Disj(<< AllQ, T(1) >>, 2),
            Bool(<< AllQ >>, << T(1) >>, 1, << >>, << >>), Bool(<< T(1) >>, << >>, 0, << IdsQ >>, << >>),
            Bool(<< >>, << >>, 0, << IdsQ >>, << T(1) >>), Bool(<< IdsQ >>, << T(1) >>, 0, << >>, << >>) }
+    \* must + several should clauses with a minimum (the K1 shape for min = 1)
+    \cup { Bool(<< T(1) >>, << T(2), T(1) >>, m, << >>, << >>) : m \in 0..2 }
+    \cup { Bool(<< AllQ >>, << T(1), T(2) >>, m, << >>, << >>) : m \in 0..2 }
 \* depth-2 shapes chosen after the code's interesting paths: a boolean advanced by a
 \* conjunction (DESIGN lead 2), optimisable disjunctions/conjunctions nested in
 \* conjunctions/disjunctions/booleans, compound must-not and filter clauses
@@ -127,7 +130,9 @@ QDeepQuick(u) ==
            Disj(<< Conj(<< T(1), T(2) >>), T(3) >>, 1),
            Bool(<< Disj(<< T(1), T(2) >>, 1) >>, << >>, 0, << T(3) >>, << >>),
            Bool(<< T(3) >>, << >>, 0, << >>, << Disj(<< T(1), T(2) >>, 1) >>),
-           Bool(<< T(3) >>, << Conj(<< T(1), T(2) >>) >>, 1, << >>, << >>) }
+           Bool(<< T(3) >>, << Conj(<< T(1), T(2) >>) >>, 1, << >>, << >>),
+           \* the K1 shape below a filter clause (filters are always built score:none)
+           Bool(<< >>, << >>, 0, << >>, << Bool(<< T(1) >>, << T(2), T(3) >>, 1, << >>, << >>) >>) }
 QDeepMore(u) ==
     { Conj(<< Disj(<< T(1), T(2) >>, 2), T(3) >>), Disj(<< Conj(<< T(1), T(2) >>), T(3) >>, 2),
       Disj(<< T(3), Disj(<< T(1), T(2) >>, 2) >>, 1),
@@ -150,7 +155,9 @@ HasMustShouldMin(x) ==
     \/ (x.type = "boolean" /\ Len(x.must) > 0 /\ Len(x.should) > 0 /\ x.min >= 1)
     \/ \E i \in DOMAIN Kids(x) : HasMustShouldMin(Kids(x)[i])
 \* K1: under score:none (and no term vectors) a should disjunction (min <= 1,
-\*     >= 2 term children) becomes an unadorned term searcher whose Min() is 0.
+\*     >= 2 term children) became an unadorned term searcher whose Min() is 0
+\*     (repaired in a0964f3: FixShouldMin = TRUE; configuration c02_asfound_k1
+\*     keeps the old behaviour as a regression detector).
 RECURSIVE HasK1(_)
 HasK1(x) ==
     \/ (x.type = "boolean" /\ Len(x.must) > 0 /\ Len(x.should) >= 2 /\ x.min = 1)
